@@ -92,7 +92,9 @@ Section SignProofs.
     reflexivity.
   Qed.
 
-  (* ---- C12_roundtrip -------------------------------------------------------------- *)
+  (* ---- C12_roundtrip --------------------------------------------------------------
+     for both variants of the validator's key selection ([by_asn], see Validate.as_filter) *)
+  Variable by_asn : bool.
   Variable key_pair : list Z -> list Z -> Prop.          (* private key, SubjectPublicKeyInfo *)
   Hypothesis pair_loads : forall priv spki, key_pair priv spki ->
     load_priv priv = true /\ load_pub spki = true /\ 0 < ecdsa_size priv < 65536.
@@ -108,7 +110,8 @@ Section SignProofs.
     ski_is_empty (h_ski h) = false /\ 0 <= target < 4294967296.
 
   Definition has_key (t : list router_key) (ht : hop * Z) : Prop :=
-    exists spki asn, key_pair (h_priv (fst ht)) spki /\ In (mk_rk (h_ski (fst ht)) asn spki) t.
+    exists spki asn, key_pair (h_priv (fst ht)) spki /\ In (mk_rk (h_ski (fst ht)) asn spki) t /\
+                     (by_asn = true -> asn = h_asn (fst ht)).
 
   (* each hop sends the update to the AS of the next hop *)
   Fixpoint chain (hops : list (hop * Z)) : Prop :=
@@ -123,7 +126,7 @@ Section SignProofs.
     (n_afi (b_nlri d) = BGPSEC_IPV4 \/ n_afi (b_nlri d) = BGPSEC_IPV6) /\
     n_len (b_nlri d) <= 128 /\
     Forall (fun g => 8 <= sig_len g) (b_sigs d) /\
-    hops_ok (fun _ _ => True) t d (b_target_as d) (b_path d) (b_sigs d).
+    hops_ok (as_ok by_asn) t d (b_target_as d) (b_path d) (b_sigs d).
 
   Lemma hops_ok_ext as_ok t d d' : b_alg d = b_alg d' -> b_afi d = b_afi d' -> b_safi d = b_safi d' ->
     b_nlri d = b_nlri d' ->
@@ -151,9 +154,9 @@ Section SignProofs.
     length (b_path d') = S (length (b_path d)) /\
     total_bytes d VALIDATION <= total_bytes d' VALIDATION.
   Proof.
-    intros (Wf & Hc & Hl & Ha & Hf & Hn & Hlen8 & Hh) (Wsec & Hski & Hne & Htg) (spki & asn & Hpair & Hin)
+    intros (Wf & Hc & Hl & Ha & Hf & Hn & Hlen8 & Hh) (Wsec & Hski & Hne & Htg) (spki & asn & Hpair & Hin & Hasn)
            Hlink Hroom Hfw Hsmall.
-    cbn [fst] in Hpair, Hin.
+    cbn [fst] in Hpair, Hin, Hasn.
     destruct (pair_loads _ _ Hpair) as (Lp & Lq & Lsz).
     set (sec := mk_sps (h_pcount h) (h_flags h) (h_asn h)) in *.
     set (d1 := set_target (prepend_sec d sec) target) in *.
@@ -210,11 +213,12 @@ Section SignProofs.
         cbn [b_target_as b_path b_sigs b_alg b_afi b_safi] in Hd.
         split.
         * exists (st_buf s), (mk_rk (h_ski h) asn spki).
-          split; [exact Hd|]. split; [exact Hin|]. split; [reflexivity|]. split; [exact I|].
+          split; [exact Hd|]. split; [exact Hin|]. split; [reflexivity|].
+          split; [destruct by_asn; cbn [as_ok rk_asn sp_asn sec]; [now apply Hasn|exact I]|].
           unfold Validate.sig_ok. cbn [rk_spki sg_sig g']. rewrite Lq.
           unfold sg. rewrite (pair_verifies _ _ _ Hpair). reflexivity.
         * cbn [sp_asn sec].
-          assert (Hold : hops_ok (fun _ _ => True) t d (h_asn h) (b_path d) (b_sigs d)).
+          assert (Hold : hops_ok (as_ok by_asn) t d (h_asn h) (b_path d) (b_sigs d)).
           { destruct Hlink as [E | <-]; [|exact Hh]. rewrite E. destruct (b_path d); exact I. }
           revert Hold. apply hops_ok_ext; reflexivity.
     - unfold total_bytes, nlri_byte_len. cbn [b_path b_sigs b_nlri tl List.length].
@@ -280,7 +284,7 @@ Section SignProofs.
     hops <> [] -> Z.of_nat (length hops) < 256 ->
     Forall wf_hop hops -> Forall (has_key t) hops -> chain hops ->
     build d0 hops = Some d -> total_bytes d VALIDATION < 65536 ->
-    validate d t = Some BGPSEC_VALID.
+    Validate.validate_gen sha256 load_pub ecdsa_verify by_asn d t = Some BGPSEC_VALID.
   Proof.
     intros Hp Hs Hpl Hsl Ha Hf Ht Hafi Hsafi Hn Hnb Hne Hlen Wh Hk Hch Hb Hsmall.
     assert (Hinv0 : inv t d0).
@@ -291,16 +295,16 @@ Section SignProofs.
                          ltac:(rewrite Hp; cbn [List.length]; lia) Hb Hsmall)
       as ((Wf & Hc & Hl & Ha' & Hf' & Hn' & Hlen8 & Hh) & Hned & _).
     specialize (Hned Hne).
-    apply (proj1 (validate_decision sha256 load_pub ecdsa_verify d t Wf Hc Hsmall)).
+    apply (proj1 (validate_gen_decision sha256 load_pub ecdsa_verify by_asn d t Wf Hc Hsmall)).
     assert (Hpre : preconds d).
     { unfold preconds. destruct Hc as (C1 & _ & C3 & _).
       repeat split; try assumption; try lia.
       intros E. rewrite E in Hl. destruct (b_sigs d); [congruence|discriminate]. }
     split; [exact Hpre|]. split.
-    - unfold path_valid_any_as, hop_valid_any_as, hop_valid_gen, digest_for_hop, to_update.
+    - unfold path_valid_gen, hop_valid_gen, digest_for_hop, to_update.
       cbn [u_target u_secs u_sigs u_alg u_afi u_safi u_nlri].
       split; [apply Hpre|]. split; [exact Hl|].
-      apply (hops_ok_iff sha256 load_pub ecdsa_verify (fun _ _ => True) t d _ _ _ Hl). exact Hh.
+      apply (hops_ok_iff sha256 load_pub ecdsa_verify (as_ok by_asn) t d _ _ _ Hl). exact Hh.
     - unfold last_sig_len. destruct (b_sigs d) as [|g rest]; [congruence|].
       assert (Hlast : 8 <= last_len g rest).
       { clear - Hlen8. revert g Hlen8. induction rest as [|g' rest IH]; intros g H.
@@ -324,23 +328,36 @@ Definition ex_table : list router_key :=
 Lemma ex_roundtrip :
   exists d, Sign.build toy_sha toy_load_priv toy_size toy_sign ex_d0 ex_hops = Some d /\
             length (b_path d) = 2%nat /\
-            Validate.validate toy_sha toy_load toy_verify d ex_table = Some BGPSEC_VALID.
+            Validate.validate toy_sha toy_load toy_verify d ex_table = Some BGPSEC_VALID /\
+            Validate.validate_fixed toy_sha toy_load toy_verify d ex_table = Some BGPSEC_VALID.
 Proof.
-  destruct (Sign.build toy_sha toy_load_priv toy_size toy_sign ex_d0 ex_hops) as [d|] eqn:B;
-    [|vm_compute in B; discriminate].
-  exists d. split; [reflexivity|].
-  assert (Hlen : length (b_path d) = 2%nat) by (vm_compute in B; injection B as <-; reflexivity).
-  split; [exact Hlen|].
-  apply (roundtrip toy_sha toy_load toy_verify toy_load_priv toy_size toy_sign toy_pair
-                   toy_pair_loads toy_pair_verifies toy_sign_length ex_table ex_d0 ex_hops d);
-    try reflexivity; try (cbn; lia); try (vm_compute; intuition congruence); try exact B.
-  - left. reflexivity.
-  - cbn. unfold byte_ok. lia.
-  - discriminate.
-  - repeat constructor; cbn; unfold byte_ok; try lia.
-  - repeat constructor.
-    + exists [11; 9], 64496. split; [exists 11, [1], [9]; auto|cbn; auto].
-    + exists [22; 9], 65536. split; [exists 22, [2], [9]; auto|cbn; auto].
-  - cbn. auto.
-  - vm_compute in B. injection B as <-. vm_compute. reflexivity.
+  eexists. split; [vm_compute; reflexivity|]. split; [reflexivity|].
+  assert (G : forall by_asn,
+    Validate.validate_gen toy_sha toy_load toy_verify by_asn
+      ltac:(let x := eval vm_compute in (Sign.build toy_sha toy_load_priv toy_size toy_sign ex_d0 ex_hops) in
+            match x with Some ?d => exact d end) ex_table = Some BGPSEC_VALID).
+  { intros by_asn.
+    apply (roundtrip toy_sha toy_load toy_verify toy_load_priv toy_size toy_sign by_asn toy_pair
+                     toy_pair_loads toy_pair_verifies toy_sign_length ex_table ex_d0 ex_hops).
+    - reflexivity.
+    - reflexivity.
+    - reflexivity.
+    - reflexivity.
+    - reflexivity.
+    - right. reflexivity.
+    - cbn. lia.
+    - cbn. lia.
+    - cbn. unfold byte_ok. lia.
+    - cbn. lia.
+    - vm_compute. discriminate.
+    - discriminate.
+    - cbn. lia.
+    - repeat constructor; cbn; unfold byte_ok; lia.
+    - repeat constructor.
+      + exists [11; 9], 64496. split; [exists 11, [1], [9]; auto|cbn; auto].
+      + exists [22; 9], 65536. split; [exists 22, [2], [9]; auto|cbn; auto].
+    - cbn. auto.
+    - vm_compute. reflexivity.
+    - vm_compute. reflexivity. }
+  split; [exact (G false)|exact (G true)].
 Qed.
